@@ -20,6 +20,7 @@ from photon_weave.state.composite_envelope import CompositeEnvelope
 
 from .base_state import BaseState
 from .expansion_levels import ExpansionLevel
+from photon_weave._verif import announce as _verif_announce
 
 if TYPE_CHECKING:
     from .envelope import Envelope
@@ -289,6 +290,7 @@ class Fock(BaseState):
                 probs = jnp.abs(self.state.flatten()) ** 2
                 probs = probs.ravel()
                 assert jnp.isclose(sum(probs), 1)
+                _verif_announce("measure", self)
                 key = C.random_key
                 result = int(jax.random.choice(key, a=jnp.arange(len(probs)), p=probs))
             case ExpansionLevel.Matrix:
@@ -296,6 +298,7 @@ class Fock(BaseState):
                 assert self.state.shape == (self.dimensions, self.dimensions)
                 probs = jnp.diag(self.state).real
                 probs = probs / jnp.sum(probs)
+                _verif_announce("measure", self)
                 key = C.random_key
                 result = int(jax.random.choice(key, a=jnp.arange(len(probs)), p=probs))
         self.state = result
